@@ -25,7 +25,7 @@ class Ob:
     def __init__(self, id, props, tu, roots, harness, entry='harness', spec=None, enforce=None, replace=(),
                  tier='U', unwind=None, unwindset=None, defines=None, cfg='kernel', timeout=300, quick=True,
                  covers=0, expect_loops=(), note='', flags=(), bounds=None, loop_contracts=True, object_bits=12,
-                 expected_fail=(), kissat=False, spec_text='', includes=(), copies=(), stubs=None, inline_vec=False, adaptive_unwind=True, inits=None, prebuild_shape=None, unwind_start=3, quick_for=None):
+                 expected_fail=(), kissat=False, spec_text='', includes=(), copies=(), stubs=None, inline_vec=False, adaptive_unwind=True, inits=None, prebuild_shape=None, unwind_start=3, quick_for=None, preamble='', mem_gb=None):
         self.id = id; self.props = props; self.tu = tu; self.roots = roots; self.harness = harness; self.entry = entry
         self.mesh_harness = None
         if not isinstance(harness, str):
@@ -34,7 +34,7 @@ class Ob:
         self.unwind = unwind; self.unwindset = unwindset; self.defines = defines or {}; self.cfg = cfg
         self.timeout = timeout; self.quick = quick; self.covers = covers; self.expect_loops = expect_loops
         self.note = note; self.flags = list(flags); self.bounds = bounds or {}; self.loop_contracts = loop_contracts
-        self.object_bits = object_bits; self.expected_fail = expected_fail; self.kissat = kissat; self.spec_text = spec_text; self.includes = list(includes); self.copies = list(copies); self.stubs = stubs or {}; self.inline_vec = inline_vec; self.adaptive_unwind = adaptive_unwind; self.inits = inits or {}; self.prebuild_shape = prebuild_shape; self.unwind_start = unwind_start; self.quick_for = quick_for
+        self.object_bits = object_bits; self.expected_fail = expected_fail; self.kissat = kissat; self.spec_text = spec_text; self.includes = list(includes); self.copies = list(copies); self.stubs = stubs or {}; self.inline_vec = inline_vec; self.adaptive_unwind = adaptive_unwind; self.inits = inits or {}; self.prebuild_shape = prebuild_shape; self.unwind_start = unwind_start; self.quick_for = quick_for; self.preamble = preamble; self.mem_gb = mem_gb
 
 # ---------------------------------------------------------------------------------------------- AST cache
 TUS = {'kernel': 'tu/kernel.cc', 'tethex': 'tu/tethex.cc', 'ovmb': 'tu/ovmb.cc', 'vector': 'tu/vector.cc'}
@@ -110,7 +110,7 @@ def ghost_stub_bodies(unit, ob=None):
     for cn, proto in unit.em.stub_protos.items():
         m = re.match(r'^ResourceManager__(resize_props|reserve_props|entity_deleted|swap_property_elements|copy_property_elements|clear_props)_(\w+)$', cn)
         norm = lambda x: re.sub(r'_+', '_', re.sub(r'[^A-Za-z0-9_]', '_', x.replace('OpenVolumeMesh::', '')))
-        custom = [b for q, b in (ob.stubs.items() if ob else []) if norm(q) == norm(cn)]
+        custom = [b for q, b in (ob.stubs.items() if ob else []) if norm(q) == norm(cn) or norm(cn).startswith(norm(q) + '_')]
         if custom:
             out.append(proto + '\n' + custom[0]); continue
         if cn == 'ResourceManager__clear_all_props':
@@ -197,7 +197,7 @@ def run_ob(ob, tier, workdir):
         defs = ''.join('#define %s %s\n' % kv for kv in ob.defines.items()) + ('#define VSTD_INLINE 1\n' if ob.inline_vec else '')
         stubs = ghost_stub_bodies(unit, ob) if unit.em.stub_protos else ''
         inc = ''.join('#include "%s/spec/%s"\n' % (ROOT, h) for h in ob.includes)
-        head = defs + '#include "gen.c"\nint g_k, g_j; unsigned long g_u;\n#include "%s/spec/common.h"\n' % ROOT + init_text + inc + stubs
+        head = defs + '#include "gen.c"\nint g_k, g_j; unsigned long g_u;\n#include "%s/spec/common.h"\n' % ROOT + ob.preamble + init_text + inc + stubs
         shape_w = ''
         if ob.prebuild_shape is not None:
             # the shape is constructed by running the extracted construction code natively; CBMC starts from its witness
@@ -250,7 +250,7 @@ def run_ob(ob, tier, workdir):
     if ob.object_bits: cb0 += ['--object-bits', str(ob.object_bits)]
     if ob.kissat: cb0 += ['--external-sat-solver', 'kissat']
     to = ob.timeout if tier == 'quick' else max(ob.timeout, 900)
-    memgb = int(os.environ.get('VERIF_MEM_GB', '12'))
+    memgb = ob.mem_gb or int(os.environ.get('VERIF_MEM_GB', '12'))
     uset = {}
     if ob.unwindset:
         for kv in ob.unwindset.split(','): uset[kv.rsplit(':', 1)[0]] = int(kv.rsplit(':', 1)[1])
